@@ -156,6 +156,10 @@ func Evolve(s *Schema, r *prng.Rand) *Evolved {
 		names := []string{nm.fresh(true), nm.fresh(true), nm.fresh(true), nm.fresh(true), nm.fresh(true), nm.fresh(true), nm.fresh(true), nm.fresh(true), nm.fresh(true), nm.fresh(true)}
 		fn := []string{nm.fresh(false), nm.fresh(false), nm.fresh(false), nm.fresh(false)}
 		sn := []Field{sent(), sent(), sent(), sent(), sent(), sent()}
+		// second level: the structs that hold the message in an array / as map values are
+		// themselves nested (struct field, array element, message field), data following
+		deep := []string{nm.fresh(true), nm.fresh(true), nm.fresh(true), nm.fresh(true), nm.fresh(true), nm.fresh(true)}
+		dsn := []Field{sent(), sent(), sent(), sent(), sent(), sent()}
 		mapOf := func(t Type) Type { return M("string", t) }
 		if td := nw.Lookup(top); td != nil && td.Imported {
 			// maps whose values are imported records do not compile in separate mode
@@ -173,6 +177,12 @@ func Evolve(s *Schema, r *prng.Rand) *Evolved {
 				St(names[7], F(fn[1], m), F(fn[2], P("byte"))),
 				St(names[8], F(fn[0], N(names[7])), sn[5]),
 				St(names[9], F(fn[3], A(N(names[7]))), sn[5]),
+				St(deep[0], F(fn[0], N(names[2])), dsn[0]),
+				St(deep[1], F(fn[1], A(N(names[2]))), dsn[1]),
+				Msg(deep[2], MF(1, fn[2], N(names[2])), Field{Name: dsn[2].Name, Type: dsn[2].Type, Index: 2}),
+				St(deep[3], F(fn[0], N(names[1])), dsn[3]),
+				St(deep[4], F(fn[1], mapOf(N(names[1]))), dsn[4]),
+				Msg(deep[5], MF(1, fn[2], A(N(names[1]))), Field{Name: dsn[5].Name, Type: dsn[5].Type, Index: 2}),
 			}
 		}
 		innerFields := func(s *Schema) func() *Def {
